@@ -17,12 +17,31 @@ norm of a normalised result, truncation error <= sqrt(sum of discarded Schmidt w
 state => exact zero tensors and norm 0, no NaN/inf anywhere (numpy divide/invalid set to raise), no exception on
 well-formed input.  These are supporting evidence for the oracle hypotheses (LAPACK returns A = QR with Q^T Q = 1,
 A = U S V^T), not theorems.
+
+Oracle of a QR step: the Frobenius norm of the R factor LAPACK returned, computed BY THE HARNESS from the recorded R
+(scipy.linalg.norm, the function the unchanged code uses, so both agree bit for bit on it) — not whatever the code
+derives from R to take its zero decision.  A zero result that no recorded factor (|R|_F, sigma_0, last-tensor norm)
+backs is reported as a non-zero state mapped to zero.
+
+All numeric monitors are SCALE-FREE: every tensor is divided by its Frobenius norm, the product of these norms and
+the returned norm are carried as mpmath mpf (120 bits), and only O(1) quantities are compared.  Chains too long for a
+dense contraction (40..100 sites) are compared through transfer-matrix overlaps <in|in>, <in|out>, <out|out>
+accumulated in long double with an mpf scale (relative error, magnitude ratio and 1 - cosine).  So inputs whose norm
+lies far outside the float range (uniform scales 1e-150..1e150 on short chains, 1e-9..1e9 on long ones) are checked
+like any other, and the returned norm is checked as a number (finite, >= 0, the right magnitude), whatever its type;
+a norm that is not an mpf triggers a re-run of the same call on a uniformly rescaled copy whose norm leaves the float
+range.  normalise=False on such a state cannot be honoured by float64 tensors (the centre tensor would have to carry
+the norm): see RANGE_KEY.
 """
 import json
+import os
 import random
+import sys
 from fractions import Fraction
 
 import numpy as np
+from mpmath import mp
+from scipy.linalg import norm as _sp_norm
 
 from qv.core import rat
 
@@ -30,7 +49,12 @@ LEVEL = 'proof'
 
 RULE = ('random MPS (bra/ket) and MPO: 1..7 tensors, physical dims 1..3, bonds 1..6, open boundary dims mostly 1, '
         '0..2 leading/trailing None, styles normal / small-int / rank-deficient / scaled 1e-20..1e20 / diagonal with '
-        'singular values equal to the tolerance / exact zero tensor / product-zero pair; malformed stream: internal None '
+        'singular values equal to the tolerance / exact zero tensor / product-zero pair / STRUCTURED rank-deficient '
+        '(matricisation in sweep orientation, left or right: single non-zero entry, zero leading columns / rows, '
+        'strictly upper / lower triangular (nilpotent), shift, repeated columns, partial permutation, identity; one '
+        'site or every site) / XSCALE (2..7 sites, every tensor times 1e+-30..1e+-150: state norm far outside the '
+        'float range) / LONG (40..100 sites, bonds 1..2, physical dims 1..2, every tensor times 1e-9..1e9, optional '
+        'structured site); malformed stream: internal None '
         'gap, all-None and empty lists, bond mismatch, wrong mask length, chi or tol with qr; ops '
         'left_canonical_form / right_canonical_form (qr and svd, chi in None,0,1..7, tol in None,0,1e-12,1e-3,0.5, '
         'normalise both, masks None/random/all-false/all-true) and truncate; helper ops _mps_start_stop_indices, '
@@ -77,15 +101,116 @@ def fill(rng, nrng, shp, style):
     return nrng.standard_normal(shp)
 
 
+ONE_PATTERNS = ['single', 'zero-lead-cols', 'zero-lead-rows', 'nilpotent-upper', 'nilpotent-lower', 'shift',
+                'repeat-cols', 'perm']
+ALL_PATTERNS = ONE_PATTERNS + ['perm', 'identity', 'identity', 'shift', 'dense']
+
+
+def struct_matrix(rng, nrng, rows, cols, pat, ints):
+    """rows x cols matrix with a rank-deficient / sparse structure (falls back to a dense block when the pattern does
+    not fit the dimensions, so that the tensor is not identically zero by accident)"""
+    def vals(size):
+        if ints:
+            return nrng.choice(np.array([-2.0, -1.0, 1.0, 2.0]), size=size)
+        return nrng.standard_normal(size)
+    m = np.zeros((rows, cols))
+    if pat == 'single':
+        m[rng.randrange(rows), rng.randrange(cols)] = float(vals(1)[0])
+    elif pat == 'zero-lead-cols' and cols >= 2:
+        k = rng.randint(1, cols - 1)
+        m[:, k:] = vals((rows, cols - k))
+    elif pat == 'zero-lead-rows' and rows >= 2:
+        k = rng.randint(1, rows - 1)
+        m[k:, :] = vals((rows - k, cols))
+    elif pat == 'nilpotent-upper' and cols >= 2:
+        m = np.triu(vals((rows, cols)), 1)
+    elif pat == 'nilpotent-lower' and rows >= 2:
+        m = np.tril(vals((rows, cols)), -1)
+    elif pat == 'shift' and cols >= 2:
+        for i in range(min(rows, cols - 1)):
+            m[i, i + 1] = 1.0
+    elif pat == 'repeat-cols' and cols >= 2:
+        r = rng.randint(1, max(1, min(rows, cols) - 1))
+        basis = vals((rows, r))
+        for j in range(cols):
+            m[:, j] = basis[:, rng.randrange(r)] * rng.choice([1.0, 1.0, -1.0, 2.0])
+    elif pat == 'perm':
+        k = rng.randint(1, min(rows, cols))
+        m[rng.sample(range(rows), k), rng.sample(range(cols), k)] = 1.0
+    elif pat == 'identity':
+        for i in range(min(rows, cols)):
+            m[i, i] = 1.0
+    else:
+        m = vals((rows, cols))
+    return np.asarray(m, dtype=float)
+
+
+def struct_tensor(rng, nrng, shp, pat, orient, ints):
+    """tensor whose matricisation in sweep orientation — 'L': (n e w) x s as left_canonical_form sees it, 'R': (s e w)
+    x n as right_canonical_form sees it — is the structured matrix"""
+    n, e, s, w = shp
+    if orient == 'L':
+        return np.einsum('news->nesw', struct_matrix(rng, nrng, n * e * w, s, pat, ints).reshape(n, e, w, s)).copy()
+    return np.einsum('sewn->nesw', struct_matrix(rng, nrng, s * e * w, n, pat, ints).reshape(s, e, w, n)).copy()
+
+
+def struct_tensors(rng, nrng, shapes):
+    """structured rank-deficient chain: one structured site (mostly the one the sweep meets first) among generic ones,
+    or every site structured (sparse 0/1 routing patterns survive the R factors of the sweep)"""
+    L = len(shapes)
+    orient = rng.choice('LR')
+    ints = rng.random() < 0.6
+    if rng.random() < 0.5:
+        tensors = [fill(rng, nrng, s, 'int' if ints else 'normal') for s in shapes]
+        first = 0 if orient == 'L' else L - 1
+        i = first if rng.random() < 0.6 else rng.randrange(L)
+        tensors[i] = struct_tensor(rng, nrng, shapes[i], rng.choice(ONE_PATTERNS), orient, ints)
+        return tensors
+    return [struct_tensor(rng, nrng, s, rng.choice(ALL_PATTERNS), orient, ints) for s in shapes]
+
+
+def gen_long(rng):
+    L = rng.randint(40, 100)
+    kind = rng.choice(['bra', 'ket', 'mpo'])
+    phys = []
+    for _ in range(L):
+        d1, d2 = rng.choice([1, 2, 2]), rng.choice([1, 2, 2])
+        phys.append((d1, 1) if kind == 'bra' else (1, d2) if kind == 'ket' else (d1, d2))
+    bonds = [1] + [rng.choice([1, 2, 2, 2]) for _ in range(L - 1)] + [1]
+    return kind, [(bonds[i], phys[i][0], bonds[i + 1], phys[i][1]) for i in range(L)]
+
+
 def build_case(seed):
     """deterministic construction of one case from an integer seed (drawn from ctx.rng by run())"""
     rng = random.Random(seed)
     nrng = np.random.default_rng(seed)
-    kind, shapes = gen_shapes(rng)
-    style = rng.choice(['normal', 'normal', 'int', 'rankdef', 'scaled', 'diag', 'zero', 'zero', 'prodzero'])
+    cls = rng.random()
+    if cls < 0.05:
+        style = 'long'
+        kind, shapes = gen_long(rng)
+    else:
+        kind, shapes = gen_shapes(rng)
+        if cls < 0.13:
+            style = 'xscale'
+        elif cls < 0.30:
+            style = 'struct'
+        else:
+            style = rng.choice(['normal', 'normal', 'int', 'rankdef', 'scaled', 'diag', 'zero', 'zero', 'prodzero'])
     base = style if style in ('int', 'rankdef', 'scaled') else rng.choice(['normal', 'int'])
-    tensors = [fill(rng, nrng, s, base) for s in shapes]
+    if style == 'struct' or (style == 'xscale' and rng.random() < 0.3):
+        tensors = struct_tensors(rng, nrng, shapes)
+    else:
+        tensors = [fill(rng, nrng, s, base) for s in shapes]
     L = len(tensors)
+    if style == 'long':
+        if rng.random() < 0.25:
+            i = rng.choice([0, L - 1, rng.randrange(L)])
+            tensors[i] = struct_tensor(rng, nrng, shapes[i], rng.choice(ONE_PATTERNS), rng.choice('LR'), base == 'int')
+        c = 10.0 ** rng.choice([-9, -8, -7, -6, -5, -4, -3, -1, 0, 1, 3, 4, 5, 6, 7, 8, 9])
+        tensors = [t * c for t in tensors]
+    elif style == 'xscale':
+        c = 10.0 ** (rng.choice([-1, 1]) * rng.randint(30, 150))
+        tensors = [t * c for t in tensors]
     zero_exact = False
     if style == 'zero':
         tensors[rng.randrange(L)][...] = 0.0
@@ -160,7 +285,10 @@ class _LinalgProxy:
 
     def qr(self, a, *args, **kw):
         q, r = self._real.qr(a, *args, **kw)
-        self._rec.call({'k': 'Q', 'shape': a.shape, 'qcols': q.shape[1], 'val': None})
+        # oracle of the step: |R|_F of the factor LAPACK returned, taken here (same function the unchanged code
+        # calls), independent of what the code goes on to compute from R; 'code' = what the code's own call returned
+        self._rec.call({'k': 'Q', 'shape': a.shape, 'qcols': q.shape[1], 'val': float(self._real.norm(r)),
+                        'code': None})
         return q, r
 
     def svd(self, a, *args, **kw):
@@ -172,8 +300,8 @@ class _LinalgProxy:
         v = self._real.norm(a, *args, **kw)
         if getattr(a, 'ndim', 0) == 2:
             c = self._rec.segs[-1]['calls'] if self._rec.segs else []
-            if c and c[-1]['k'] == 'Q' and c[-1]['val'] is None:
-                c[-1]['val'] = float(v)
+            if c and c[-1]['k'] == 'Q' and c[-1]['code'] is None:
+                c[-1]['code'] = float(v)
             else:
                 self._rec.call({'k': '?', 'shape': a.shape, 'val': float(v)})
         else:
@@ -322,6 +450,86 @@ def iso_residual(t, left):
     return float(np.max(np.abs(m.T @ m - np.eye(m.shape[1])))) if m.size else 0.0
 
 
+def fro(t):
+    """Frobenius norm by BLAS nrm2 (scaled: no overflow / underflow of the squares at 1e+-150)"""
+    a = np.asarray(t, dtype=float).ravel()
+    return float(_sp_norm(a)) if a.size else 0.0
+
+
+def dense_size(run):
+    size = run[0].shape[0] * run[-1].shape[2]
+    for t in run:
+        size *= t.shape[1] * t.shape[3]
+    return size
+
+
+def unitised(run):
+    """every non-zero tensor divided by its Frobenius norm; the product of these norms as mpf (call under workprec)"""
+    ts, prod = [], mp.mpf(1)
+    for t in run:
+        f = fro(t)
+        if f == 0.0 or not np.isfinite(f):
+            ts.append(np.array(t, dtype=float))
+        else:
+            ts.append(t / f)
+            prod *= mp.mpf(f)
+    return ts, prod
+
+
+LD = np.longdouble
+LD_EXT = np.finfo(LD).eps < 1e-18          # x87 extended precision available
+LONG_REL, LONG_COS = (1e-7, 1e-14) if LD_EXT else (1e-6, 1e-12)
+
+
+def _ld2mp(x):
+    hi = float(x)
+    return mp.mpf(hi) + mp.mpf(float(x - LD(hi)))
+
+
+def overlap(a_run, b_run):
+    """<a|b> of two runs with the same physical dimensions and open boundary dimensions 1, by transfer matrices in
+    long double with the scale carried as mpf: never forms the dense state (call under workprec)"""
+    env, scale = np.ones((1, 1), dtype=LD), mp.mpf(1)
+    for a, b in zip(a_run, b_run):
+        env = np.einsum('ab,aesw,beSw->sS', env, a.astype(LD), b.astype(LD))
+        f = np.abs(env).max()
+        if f == 0:
+            return mp.mpf(0)
+        env = env / f
+        scale *= _ld2mp(f)
+    return scale * _ld2mp(env[0, 0])
+
+
+def boundary_one(run):
+    return run[0].shape[0] == 1 and run[-1].shape[2] == 1
+
+
+def state_norm(run):
+    """|state| as mpf, scale-free; None when neither route applies (call under workprec)"""
+    ts, prod = unitised(run)
+    if dense_size(run) <= DENSE_CAP:
+        return prod * mp.mpf(fro(dense(ts)))
+    if boundary_one(run):
+        return prod * mp.sqrt(overlap(ts, ts))
+    return None
+
+
+# normalise=False asks for float64 tensors that carry the norm of the state in the centre tensor.  When that norm is
+# outside the float range the unchanged code (by design: comment + logged warning 'Casting out-of-range norm') returns
+# a zero / inf centre tensor, i.e. not the input state.  Such results are attributed to this one key.
+RANGE_KEY = 'unnormalised-norm-outside-float-range'
+RANGE_LO, RANGE_HI = mp.mpf('1e-280'), mp.mpf('1e280')
+REPORT_UNNORMALISED_RANGE = os.environ.get('QV_C12_RANGE_REPORT', '1') != '0'
+RANGE_ATTRIBUTED = ('nan-in-result', 'nan-produced-internally', 'state-preservation', 'exception-on-well-formed')
+
+
+def rescaled(case, k):
+    v = dict(case)
+    v['mps'] = [None if t is None else t * 10.0 ** k for t in case['mps']]
+    v['style'] = '{}*1e{}'.format(case['style'], k)
+    return v
+
+
 def well_formed(case):
     return case['malformed'] is None and not (case['qr'] and (case['chi'] or case['tol']))
 
@@ -335,11 +543,66 @@ def py_guard(case):
 
 # ------------------------------------------------------------------------------------------ one evaluation
 
-def evaluate(case, stats=None):
+def extreme_copy(case, sign):
+    """the same chain with every non-zero tensor rescaled to Frobenius norm 1e(+-k), k = min(150, 400/sites): the
+    norm of the state leaves the float range as soon as there are 3 sites"""
+    run = run_of(case['mps'])
+    k = sign * min(150, -(-400 // max(1, len(run))))
+    v = dict(case)
+    v['mps'] = [None if t is None else (t if not fro(t) else t / fro(t) * 10.0 ** k) for t in case['mps']]
+    v['style'] = '{}->|t|=1e{}'.format(case['style'], k)
+    return v
+
+
+def range_limited(case, info):
+    """normalise=False sweep where float64 tensors cannot carry the norm (see RANGE_KEY): the scale accumulated by the
+    sweep meets the code's own 'out-of-range' condition, or the norm of the state is outside [1e-280, 1e280].
+    Returns that scale / norm, else None"""
+    if case['op'] == 'trunc' or case['normalise'] or not well_formed(case) or not run_of(case['mps']):
+        return None
+    acc = info.get('acc')
+    if acc is not None and (acc > sys.float_info.max or acc < sys.float_info.min):
+        return acc
+    with mp.workprec(120), np.errstate(all='ignore'):
+        nn = state_norm(run_of(case['mps']))
+    if nn is None or nn == 0 or RANGE_LO <= nn <= RANGE_HI:
+        return None
+    return nn
+
+
+def evaluate(case, stats=None, probe=True):
     """run the real code on the case; returns (protocol line, impl reply, property failures on the real code,
-    info).  A failure is a dict {what, key}."""
-    from qecsim.tensortools import mps as M
+    info).  A failure is a dict {what, key[, case]} (case: the input it was seen on when that is not `case`)."""
     st = stats if stats is not None else {}
+    line, impl, fails, info = _evaluate(case, st)
+    if any(f['key'] in RANGE_ATTRIBUTED for f in fails):
+        nn = range_limited(case, info)
+        if nn is not None:
+            if impl == 'FloatingPointError':
+                # inf * 0 in the centre tensor, turned into an exception by the errstate of this harness: there is no
+                # return value to compare with the shape model
+                info['skip'] = 'range-limited-unnormalised-nan'
+            st['range_limited_unnormalised'] = st.get('range_limited_unnormalised', 0) + 1
+            first = next(f for f in fails if f['key'] in RANGE_ATTRIBUTED)
+            fails = [f for f in fails if f['key'] not in RANGE_ATTRIBUTED]
+            if REPORT_UNNORMALISED_RANGE:
+                fails.append({'what': 'normalise=False on a state of norm {} (outside the float range): {}'.format(
+                    mp.nstr(nn, 6), first['what']), 'key': RANGE_KEY})
+    # a norm that is not an mpf is only right while it stays in the float range: try the same call where it does not
+    if probe and info.get('norm_type') not in (None, 'mpf') and info.get('swept') and well_formed(case):
+        for sign in (-1, 1):
+            v = extreme_copy(case, sign)
+            st['norm_type_probe'] = st.get('norm_type_probe', 0) + 1
+            _, _, vf, _ = evaluate(v, None, probe=False)
+            if vf:
+                fails.append({'what': 'returned norm has type {}; on the rescaled copy: {}'.format(
+                    info['norm_type'], vf[0]['what']), 'key': vf[0]['key'], 'case': v})
+                break
+    return line, impl, fails, info
+
+
+def _evaluate(case, st):
+    from qecsim.tensortools import mps as M
 
     def bump(k):
         st[k] = st.get(k, 0) + 1
@@ -354,7 +617,7 @@ def evaluate(case, stats=None):
     res = None
     with Recorder() as rec:
         try:
-            with np.errstate(divide='raise', invalid='raise'):
+            with np.errstate(divide='raise', invalid='raise', over='ignore'):
                 if op == 'lcf':
                     res = M.left_canonical_form(mps, chi=chi, tol=tol, qr=qr, normalise=normalise, mask=mask)
                 elif op == 'rcf':
@@ -365,7 +628,14 @@ def evaluate(case, stats=None):
             exc = ex
     segs = rec.segs
     info = {'segs': len(segs), 'decomps': sum(len([c for c in s['calls'] if c['k'] in 'QS']) for s in segs),
-            'skip': None}
+            'skip': None, 'norm_type': None, 'swept': False, 'numeric': None}
+    # the scale the sweep accumulated (what normalise=False multiplies into the centre tensor as a float)
+    acc = mp.mpf(1)
+    for c in (segs[0]['calls'] if segs else []):
+        v = c['val'] if c['k'] == 'Q' else (c['s'][0] if c['k'] == 'S' and len(c['s']) else None)
+        if v and np.isfinite(v):
+            acc *= mp.mpf(float(v))
+    info['acc'] = acc
     # ---- oracle + trace from the record
     Ltot = len(mps)
     try:
@@ -432,25 +702,52 @@ def evaluate(case, stats=None):
     if case['malformed'] in ('gap', 'bond', 'mask-length') or not well_formed(case) and case['malformed'] != 'no-tensors':
         return line, impl, fails, info
     # ---- property clauses evaluated directly on the real outputs ---------------------------------------------
+    # (0) the returned norm is a finite non-negative real number whatever its type (never converted to float here)
+    nrm = None
+    if norm is not None:
+        bump('norm_is_finite_number')
+        info['norm_type'] = 'mpf' if isinstance(norm, mp.mpf) else type(norm).__name__
+        info['swept'] = bool(segs) and not same
+        try:
+            nrm = mp.mpf(norm)
+        except (TypeError, ValueError):
+            fail('returned norm {!r} is not a real number'.format(norm), 'norm-not-a-number')
+            return line, impl, fails, info
+        if not mp.isfinite(nrm) or nrm < 0:
+            fail('returned norm is {!r}'.format(norm), 'nan-in-result')
+            return line, impl, fails, info
     bump('finite')
-    if not finite(out) or (norm is not None and not np.isfinite(float(norm))):
+    if not finite(out):
         fail('NaN / inf in the result', 'nan-in-result')
         return line, impl, fails, info
     run_in, run_out = run_of(mps), run_of(out)
     if not run_in:
         return line, impl, fails, info
-    scale = 1.0
-    for t in run_in:
-        scale *= max(float(np.linalg.norm(t)), 1e-300)
-    fnorm = 1.0 if norm is None else float(norm)
     # (1) consecutive output bonds agree, physical dimensions unchanged, None pattern unchanged
     bump('shapes_consistent')
+    fits = True
     if [s is None for s in out_shapes] != [s is None for s in in_shapes]:
         fail('None pattern changed', 'none-pattern')
+        fits = False
     rs = [s for s in out_shapes if s is not None]
     if any(rs[i][2] != rs[i + 1][0] for i in range(len(rs) - 1)) or \
             [(s[1], s[3]) for s in rs] != [(t.shape[1], t.shape[3]) for t in run_in]:
         fail('output tensors do not fit together', 'shapes-inconsistent')
+        fits = False
+    zero_any = any(zero_rec)
+    # (2a) a zero verdict must be backed by a factor that is zero: |R|_F (taken by the harness from the R that LAPACK
+    # returned), sigma_0 or the norm of the last tensor
+    unbacked_zero = nrm is not None and nrm == 0 and not zero_any and not same
+    if nrm is not None and not same:
+        bump('zero_verdict_backed')
+    if unbacked_zero:
+        if all_zero(out):
+            fail('norm 0 and zero tensors returned although no decomposition factor was zero (every |R|_F, sigma_0 and '
+                 'last-tensor norm recorded is non-zero): a non-zero state was mapped to the zero state',
+                 'state-preservation')
+        else:
+            fail('returned norm is {!r} but the returned tensors are non-zero and no decomposition factor was zero'
+                 .format(norm), 'state-preservation')
     # (2) step kinds honour the mask (original site index) and kept ranks follow the documented rule
     for i, seg in enumerate(segs):
         is_trunc_lcf = (op == 'trunc' and i == 0)
@@ -465,7 +762,7 @@ def evaluate(case, stats=None):
             want_q = s_qr or not mbit
             if (c['k'] == 'Q') != want_q:
                 fail('site {} (mask {}) was decomposed by {}'.format(c['orig_row'], mbit, c['k']), 'mask-not-honoured')
-            if c.get('zero') or c['kept'] in ('Z', '?'):
+            if c.get('zero') or c['kept'] in ('Z', '?') or unbacked_zero:
                 continue
             full = min(c['shape'])
             if c['k'] == 'Q':
@@ -477,7 +774,6 @@ def evaluate(case, stats=None):
             if c['kept'] != want:
                 fail('site {}: kept rank {} but min(rows, cols, #(sigma/sigma0 > tol), chi) = {}'.format(
                     c['orig_row'], c['kept'], want), 'kept-rank')
-    zero_any = any(zero_rec)
     # (3) zero handling
     if zero_any or case['zero_exact']:
         bump('zero_state')
@@ -490,7 +786,8 @@ def evaluate(case, stats=None):
                 fail('truncate of a zero state: norm {} / non-zero tensors'.format(norm), 'zero-handling')
         elif normalise and (norm != 0 or not all_zero(out)):
             fail('normalised canonical form of a zero state: norm {} / non-zero tensors'.format(norm), 'zero-handling')
-        elif not normalise and np.any(dense(run_out)):
+        elif not normalise and fits and any(np.any(t) for t in run_out) and dense_size(run_out) <= DENSE_CAP and \
+                np.any(dense(run_out)):
             fail('canonical form of a zero state is not a zero state', 'zero-handling')
     # (4) truncate: identity exactly when the guard says so, bonds <= chi under a full mask
     if op == 'trunc':
@@ -499,7 +796,7 @@ def evaluate(case, stats=None):
         if g == same:
             fail('truncate {} although its documented no-op condition is {}'.format(
                 'returned its input' if same else 'rebuilt the MPS', not g), 'truncate-guard')
-        if same and (float(norm) != 1.0 or any(a is not b for a, b in zip(out, mps))):
+        if same and (norm != 1 or any(a is not b for a, b in zip(out, mps))):
             fail('no-op truncate changed something / norm != 1', 'truncate-guard')
         if chi and (mask is None or all(mask)):
             bump('bond_le_chi')
@@ -508,7 +805,7 @@ def evaluate(case, stats=None):
                 fail('bond {} > chi {} after truncate with a full mask'.format(max(inner), chi), 'bond-gt-chi')
             if not g and not tol and any(b > chi for b in [s[0] for s in rs]):
                 fail('bond > chi but truncate was a no-op', 'bond-gt-chi')
-    zero_out = (norm is not None and norm == 0) or zero_any
+    zero_out = (nrm is not None and nrm == 0) or zero_any
     # (5) isometries away from the centre
     if not zero_out and not same:
         left = (op == 'lcf')
@@ -519,53 +816,131 @@ def evaluate(case, stats=None):
             if not r_ <= ISO_TOL:
                 fail('{} isometry residual {:.3e}'.format('left' if left else 'right', r_), 'isometry')
                 break
-    # (6) unit norm of a normalised result
-    if op != 'trunc' and normalise and not zero_out:
-        bump('unit_norm')
-        nn = float(np.linalg.norm(dense(run_out)))
-        if not abs(nn - 1.0) <= 1e-10:
-            fail('normalised result has norm {!r}'.format(nn), 'unit-norm')
-    # (7) state preservation / truncation error
-    if not same:
-        d_in = dense(run_in)
-        # discarded Schmidt weight (only meaningful in truncate, where the state is unit and left-canonical)
-        last = segs[-1]
-        disc, factor, truncating = 0.0, 1.0, False
-        for c in last['calls']:
+    if same or not fits:
+        return line, impl, fails, info
+    # (6) + (7) unit norm, state preservation, truncation error: scale-free (unit-Frobenius tensors, scales as mpf)
+    use_dense = dense_size(run_in) <= DENSE_CAP
+    if not use_dense and not (boundary_one(run_in) and boundary_one(run_out)):
+        bump('numeric_not_evaluated(open boundary, too large)')
+        return line, impl, fails, info
+    info['numeric'] = 'dense' if use_dense else 'overlap'
+    if not use_dense:
+        # relative claims need a well-conditioned contraction: gamma = (norm of the factor passed on) / |A_site|_F is
+        # the cancellation at a step (<= 1; O(1/sqrt(bond)) generically).  prod|A_i|_F says nothing for 40+ sites.
+        gam = 1.0
+        for c in segs[0]['calls']:
+            if c['k'] in 'QS' and 'orig_row' in c and mps[c['orig_row']] is not None:
+                f = fro(mps[c['orig_row']])
+                v = c['val'] if c['k'] == 'Q' else fro(c['s'])
+                gam = min(gam, v / f if f else 0.0)
+            elif c['k'] == 'L':
+                f = fro(run_in[0] if op == 'rcf' else run_in[-1])
+                gam = min(gam, c['val'] / f if f else 0.0)
+        if not gam >= 1e-3 and not zero_out:
+            bump('long_ill_conditioned(no numeric claim)')
+            return line, impl, fails, info
+    # discarded Schmidt weight (only meaningful in truncate, where the state is unit and left-canonical)
+    disc, factor, truncating = 0.0, 1.0, False
+    with np.errstate(all='ignore'):
+        for c in segs[-1]['calls']:
             if c['k'] == 'S' and not c.get('zero'):
                 k = c['kept'] if isinstance(c['kept'], int) else len(c['s'])
                 if k < len(c['s']):
                     truncating = True
-                    disc += float(np.sum((c['s'][k:] * factor) ** 2))
+                    if op == 'trunc':
+                        disc += float(np.sum((c['s'][k:] * factor) ** 2))
                 factor *= float(c['s'][0])
             elif c['k'] == 'Q' and c['val']:
                 factor *= c['val']
+    with mp.workprec(120), np.errstate(all='ignore'):
+        t_in, a_in = unitised(run_in)
+        t_out, a_out = unitised(run_out)
+        rho = (mp.mpf(1) if nrm is None else nrm) * a_out / a_in      # in = rho * out in unit-tensor units
+        n_out = None
+        if use_dense:
+            d_in = dense(t_in)
+            n_in = mp.mpf(fro(d_in))
+            if not zero_out:
+                d_out = dense(t_out)
+                if d_out.shape != d_in.shape:
+                    fail('open dimensions changed', 'shapes-inconsistent')
+                    return line, impl, fails, info
+                n_out = mp.mpf(fro(d_out))
+        else:
+            ii = overlap(t_in, t_in)
+            n_in = mp.sqrt(ii)
+            if not zero_out:
+                oo, io = overlap(t_out, t_out), overlap(t_in, t_out)
+                n_out = mp.sqrt(oo)
+        # (6) unit norm of a normalised result
+        if op != 'trunc' and normalise and not zero_out:
+            bump('unit_norm' if use_dense else 'long_unit_norm')
+            nn = float(a_out * n_out)
+            if not abs(nn - 1.0) <= 1e-10:
+                fail('normalised result has norm {!r}'.format(nn), 'unit-norm')
+        # (7) state preservation / truncation error
         if zero_out:
             # a zero result must come from a zero state (a truncating canonical form outside `truncate` may
             # legitimately project a non-zero state to zero: no claim there)
             if not truncating or op == 'trunc':
                 bump('zero_preserved')
-                if not float(np.linalg.norm(d_in)) <= 1e-10 * scale:
-                    fail('non-zero state mapped to the zero state', 'state-preservation')
+                # dense: |in| tiny against prod |A_i|_F; long chains (where that product says nothing): the verdict
+                # must be backed by an exactly zero factor, checked in (2a)
+                if use_dense and not float(n_in) <= 1e-10:
+                    fail('non-zero state mapped to the zero state (|in| = {:.3e} prod|A_i|_F)'.format(float(n_in)),
+                         'state-preservation')
+        elif n_in == 0 and not use_dense:
+            bump('long_state_preservation')
+            if n_out != 0 and rho != 0:
+                fail('zero state mapped to a non-zero state', 'state-preservation')
         else:
-            d_out = dense(run_out)
-            if d_out.shape != d_in.shape:
-                fail('open dimensions changed', 'shapes-inconsistent')
-            else:
-                err = float(np.linalg.norm(d_in - fnorm * d_out))
+            if use_dense:
+                rf = float(rho) if abs(rho) < mp.mpf('1e300') else float('inf')
+                err = fro(d_in - rf * d_out) if np.isfinite(rf) else float('inf')
                 if not truncating:
                     bump('state_preservation')
-                    if not err <= 1e-10 * scale:
-                        fail('state not preserved: |in - norm*out| = {:.3e} (scale {:.3e})'.format(err, scale),
+                    if not err <= 1e-10:
+                        fail('state not preserved: |in - norm*out| = {:.3e} prod|A_i|_F (|in| = {:.3e} prod|A_i|_F, '
+                             'norm*|out|/|in| = {})'.format(err, float(n_in), mp.nstr(rho * n_out / n_in, 12) if n_in else 'n/a'),
                              'state-preservation')
                 elif op == 'trunc':
                     bump('truncation_error')
-                    bound = fnorm * np.sqrt(disc) * (1 + 1e-8) + 1e-11 * scale
+                    bound = float(nrm / a_in) * np.sqrt(disc) * (1 + 1e-8) + 1e-11
                     if not err <= bound:
-                        fail('truncation error {:.6e} > discarded Schmidt weight bound {:.6e}'.format(err, bound),
-                             'truncation-error')
+                        fail('truncation error {:.6e} > discarded Schmidt weight bound {:.6e} (units of prod|A_i|_F)'
+                             .format(err, bound), 'truncation-error')
                 else:
                     bump('truncating_canonical_form(shape-only)')
+                # the returned norm itself: |in| when the sweep normalised and (lcf / rcf) cut nothing
+                if nrm is not None and (op == 'trunc' or not truncating):
+                    bump('returned_norm_value')
+                    if not abs(float(nrm / a_in - n_in)) <= 1e-10:
+                        fail('returned norm {} but |in| = {}'.format(mp.nstr(nrm, 15), mp.nstr(a_in * n_in, 15)),
+                             'norm-value')
+            else:
+                ratio = (mp.mpf(1) if nrm is None else nrm) / (a_in * n_in)      # returned norm / |in|
+                rel2 = 1 - 2 * rho * io / ii + rho * rho * oo / ii
+                rel = float(mp.sqrt(rel2)) if rel2 > 0 else 0.0
+                mag = rho * n_out / n_in
+                cosd = float(1 - io / (n_in * n_out)) if n_out != 0 else 1.0
+                if not truncating:
+                    bump('long_state_preservation')
+                    if not (abs(float(mag - 1)) <= 1e-10 and cosd <= LONG_COS and rel <= LONG_REL):
+                        fail('state not preserved: norm*|out|/|in| = {}, 1-cos(in,out) = {:.3e}, |in - norm*out|/|in| '
+                             '= {:.3e}'.format(mp.nstr(mag, 15), cosd, rel), 'state-preservation')
+                elif op == 'trunc':
+                    bump('long_truncation_error')
+                    bound = float(ratio) * np.sqrt(disc) * (1 + 1e-8) + LONG_REL
+                    if not rel <= bound:
+                        fail('truncation error {:.6e} |in| > discarded Schmidt weight bound {:.6e} |in|'.format(
+                            rel, bound), 'truncation-error')
+                else:
+                    bump('truncating_canonical_form(shape-only)')
+                if nrm is not None and (op == 'trunc' or not truncating):
+                    bump('long_returned_norm_value')
+                    if not abs(float(ratio - 1)) <= 1e-9:
+                        fail('returned norm {} but |in| = {} (ratio {})'.format(
+                            mp.nstr(nrm, 15), mp.nstr(a_in * n_in, 15), mp.nstr(ratio, 15)), 'norm-value')
     return line, impl, fails, info
 
 
@@ -639,10 +1014,14 @@ def run(ctx):
         if info['skip']:
             skipped += 1
             ctx.count('skipped', info['skip'])
+            if info['skip'].startswith('range-limited'):
+                for f in fails:
+                    ctx.monitor_fail(f['what'], case_desc(f.get('case', case)), key=f['key'])
             continue
+        ctx.count('numeric_route', info['numeric']); ctx.count('norm_type', info['norm_type'])
         ctx.case(line, impl, nontrivial=info['decomps'] > 0, meta={'seed': seed})
         for f in fails:
-            ctx.monitor_fail(f['what'], case_desc(case), key=f['key'])
+            ctx.monitor_fail(f['what'], case_desc(f.get('case', case)), key=f['key'])
     rules = {
         'finite': 'no NaN/inf in any output tensor or norm (numpy divide/invalid errors raised during the call)',
         'shapes_consistent': 'None pattern and physical dims unchanged, consecutive output bonds equal',
@@ -657,6 +1036,21 @@ def run(ctx):
         'zero_preserved': 'zero result only for |dense(in)| <= 1e-10 * prod |A_i|_F',
         'truncation_error': '|dense(in) - norm*dense(out)| <= norm*sqrt(sum discarded sigma^2)(1+1e-8) + 1e-11*scale',
         'truncating_canonical_form(shape-only)': 'lcf/rcf with chi/tol dropping values: only shape clauses apply',
+        'norm_is_finite_number': 'every returned norm converts to an mpf that is finite and >= 0 (never through float)',
+        'zero_verdict_backed': 'norm 0 only if a recorded |R|_F (harness-computed from the R of LAPACK), sigma_0 or '
+                               'last-tensor norm is exactly 0',
+        'returned_norm_value': '|norm / prod|A_i|_F - |dense(unit tensors)|| <= 1e-10 for normalising sweeps that cut '
+                               'nothing and for truncate',
+        'long_returned_norm_value': '|norm/|in| - 1| <= 1e-9, |in| from transfer-matrix overlaps (mpf scale)',
+        'long_unit_norm': '| |out| - 1 | <= 1e-10 through <out|out>',
+        'long_state_preservation': '|norm*|out|/|in| - 1| <= 1e-10, 1 - cos(in,out) <= {:g}, |in - norm*out|/|in| <= '
+                                   '{:g} through overlaps'.format(LONG_COS, LONG_REL),
+        'long_truncation_error': '|in - norm*out|/|in| <= norm/|in| * sqrt(sum discarded sigma^2)(1+1e-8) + {:g}'
+                                 .format(LONG_REL),
+        'long_ill_conditioned(no numeric claim)': 'overlap route, some step cancelled below 1e-3 of |A_site|_F',
+        'range_limited_unnormalised': 'normalise=False, |state| outside [1e-280, 1e280]: failures attributed to '
+                                      + RANGE_KEY,
+        'norm_type_probe': 'norm not an mpf: same call re-run on a copy rescaled so that |state| leaves the float range',
     }
     ctx.explored = {k: {'evaluations': v, 'rule': rules.get(k, k), 'exhaustive': False} for k, v in sorted(stats.items())}
     ctx.extra['skipped_float_boundary'] = skipped
@@ -669,6 +1063,10 @@ def run(ctx):
         'sigma/sigma0 > tol is evaluated over Q in the model and in IEEE double in the code; cases where the rounded '
         'quotient lands exactly on tol while the exact one does not are skipped (counted in skipped_float_boundary)',
         'mpmath accumulates the norm exactly enough that norm == 0 iff a zero flag was raised',
+        'the Q oracle entry is scipy.linalg.norm(R) evaluated by the harness on the R factor scipy.linalg.qr returned '
+        'to the code (identical to the value the unchanged code computes)',
+        'overlap route (chains too long for a dense contraction): long double transfer matrices with mpf scale; '
+        'numeric claims only when no sweep step cancelled below 1e-3 (counted otherwise)',
     ]
     return ctx.finish(RULE, search=search, explanation=(
         'level "proof" covers the shape/guard/control-flow theorems of Props/C12.lean only; the numeric clauses '
@@ -701,10 +1099,14 @@ def search(m):
     case = build_case(meta['seed'])
     _, _, fails, _ = evaluate(case)
     if fails:
-        return dict(case_desc(case), what=fails[0]['what'], key=fails[0]['key'])
+        return _found(fails[0], case, meta['seed'], fails[0].get('case') is not None)
     rng = random.Random(meta['seed'])
-    for _ in range(300):
+    many = len(run_of(case['mps'])) > 12
+    for i in range(60 if many else 300):
         v = dict(case)
+        if i % 3 == 2 and case['malformed'] is None:
+            # same chain, every tensor rescaled so that the norm of the state leaves the float range
+            v = extreme_copy(case, rng.choice([-1, 1]))
         v['op'] = rng.choice(['lcf', 'rcf', 'trunc'])
         v['chi'] = rng.choice(VARIANT_CHI)
         v['tol'] = rng.choice(TOLS)
@@ -715,8 +1117,15 @@ def search(m):
             v['malformed'] = None
         _, _, fails, _ = evaluate(v)
         if fails:
-            return dict(case_desc(v), what=fails[0]['what'], key=fails[0]['key'], variant_of_seed=meta['seed'])
+            return _found(fails[0], v, meta['seed'], True)
     return None
+
+
+def _found(f, case, seed, variant):
+    d = dict(case_desc(f.get('case', case)), what=f['what'], key=f['key'])
+    if variant:
+        d['variant_of_seed'] = seed
+    return d
 
 
 def _case_from_desc(d):
